@@ -51,7 +51,7 @@ Fixpoint vphis (l : list V.inst) : list V.inst :=
 Fixpoint vbody (l : list V.inst) : list V.inst :=
   match l with i :: t => if v_is_phi i then vbody t else l | [] => [] end.
 
-Lemma env_name_not k s : In s ["phi"; "assign"; "jmp"; "jnz"; "djmp"] -> String.eqb (nth k VenomNames.env_names "") s = false.
+Lemma env_name_not k s : In s ["phi"; "assign"; "jmp"; "jnz"; "djmp"; "assert"] -> String.eqb (nth k VenomNames.env_names "") s = false.
 Proof.
   intros H. do 8 (destruct k as [|k]; [cbn in H; decompose [or] H; subst; try reflexivity; contradiction|]).
   cbn in H; decompose [or] H; subst; try reflexivity; contradiction.
@@ -103,11 +103,12 @@ Lemma env_name_props k : word_op (nth k VenomNames.env_names "") = None.
 Proof. do 8 (destruct k as [|k]; [reflexivity|]). reflexivity. Qed.
 
 Lemma pname_simple o : V.is_simple o = true ->
-  word_op (pname o) = vpure o /\ is_unary (pname o) = vunary o /\ String.eqb (pname o) "assign" = vassign o.
+  word_op (pname o) = vpure o /\ is_unary (pname o) = vunary o /\ String.eqb (pname o) "assign" = vassign o /\
+  String.eqb (pname o) "assert" = false.
 Proof.
   intros H. destruct o; try discriminate H; try (repeat split; reflexivity).
   cbn [pname VenomNames.opc_name vpure vunary vassign]. split; [apply env_name_props|].
-  split; [|apply env_name_not; cbn; auto].
+  split; [|split; apply env_name_not; cbn; auto 10].
   unfold is_unary. do 8 (destruct k as [|k]; [reflexivity|]). reflexivity.
 Qed.
 
@@ -188,13 +189,15 @@ Hypotheses (HE : env_ok E) (HX : oracle_ok X).
 
 Lemma exec_inst_next_cases i vs st vs' st' : V.exec_inst E X i vs st = V.SNext vs' st' ->
   (V.is_simple (V.i_op i) = true /\ V.exec_simple E X i vs st = V.Ok (vs', st')) \/
-  ((V.i_op i = V.O_assert \/ V.i_op i = V.O_assert_unreachable) /\ vs' = vs).
+  ((V.i_op i = V.O_assert \/ V.i_op i = V.O_assert_unreachable) /\ vs' = vs /\
+   exists a v, V.i_args i = [a] /\ V.eval_op vs a = Some v /\ 0 <= v /\ v <> 0).
 Proof.
   intros H. unfold V.exec_inst in H.
   destruct (V.i_op i) eqn:Eo;
     try (left; split; [reflexivity|]; destruct (V.exec_simple E X i vs st) as [[v1 s1]|]; [|discriminate];
          injection H as <- <-; reflexivity);
-    brk H; try discriminate H; try (injection H as <- _; right; split; auto);
+    brk H; try discriminate H;
+    try (injection H as <- _; right; split; [auto|]; split; [reflexivity|]; b2p; eexists; eexists; repeat split; eauto);
     unfold V.halt_data in H; brk H; discriminate H.
 Qed.
 
@@ -215,7 +218,7 @@ Lemma pure_agree i vs st vs' st' c g : rel vs c -> inst_lit_ok i = true -> V.is_
   V.exec_simple E X i vs st = V.Ok (vs', st') -> sem_fun lv (proj_inst i) = Some g ->
   exists o, V.i_outs i = [o] /\ forall v, PositiveMap.find o vs' = Some v -> 0 <= v -> g c = v.
 Proof.
-  intros R L S H G. destruct (pname_simple _ S) as (P1 & P2 & P3).
+  intros R L S H G. destruct (pname_simple _ S) as (P1 & P2 & P3 & _).
   unfold sem_fun in G. cbn [proj_inst i_op i_args i_outs] in G.
   destruct (has_label (proj_args (V.i_op i) (V.i_args i))) eqn:HL; [discriminate|].
   destruct (V.i_outs i) as [|o [|? ?]] eqn:Eo; cbn [map] in G; try discriminate.
@@ -276,7 +279,7 @@ Lemma sim_next i vs st vs' st' c : vs_ok vs -> store_ok st -> rel vs c -> cenv_o
   exists c', step_conc lv (proj_inst i) c c' /\ rel vs' c' /\ cenv_ok c'.
 Proof.
   intros Hv Hs R C L H.
-  destruct (exec_inst_next_cases _ _ _ _ _ H) as [[S HS]|[Ho ->]].
+  destruct (exec_inst_next_cases _ _ _ _ _ H) as [[S HS]|[Ho [-> (a0 & v0 & Ea & Ev & Pv0 & Nz)]]].
   - destruct (exec_simple_ok E X HE HX _ _ _ _ _ Hv Hs L HS) as [Hv' _].
     set (pi := proj_inst i).
     set (c' := fun y => match out_of (V.i_outs i) y with
@@ -285,13 +288,14 @@ Proof.
     assert (CW : cenv_ok c').
     { intros y. unfold c'. destruct (out_of (V.i_outs i) y); [|apply C].
       destruct (sem_fun lv pi) as [g|] eqn:G; [exact (sem_fun_word lv pi g c lv_words C G) | apply norm_word]. }
-    exists c'. split; [split; [|split]|split; [|exact CW]].
+    exists c'. split; [split; [|split; [|split]]|split; [|exact CW]].
     + intros y Hy. unfold c'. destruct (out_of (V.i_outs i) y) as [o|] eqn:Eo; [|reflexivity].
       apply out_of_some in Eo as [A B]. exfalso. apply Hy. cbn [pi proj_inst i_outs]. rewrite <- B. apply in_map. exact A.
     + intros y _. apply CW.
     + intros g o' G Ho. cbn [pi proj_inst i_outs] in Ho.
       destruct (V.i_outs i) as [|o [|? ?]] eqn:Eo; try discriminate. injection Ho as <-.
       unfold c'. rewrite out_of_in by (left; reflexivity). fold pi. rewrite G. reflexivity.
+    + intros AS. exfalso. destruct (pname_simple _ S) as (_ & _ & _ & NA). cbn [pi proj_inst i_op] in AS. congruence.
     + intros x v Fx Pv. unfold c'. destruct (in_dec Pos.eq_dec x (V.i_outs i)) as [I|NI].
       * rewrite (out_of_in _ _ I). destruct (sem_fun lv pi) as [g|] eqn:G.
         -- destruct (pure_agree _ _ _ _ _ c g R L S HS G) as [o [Eo A]]. rewrite Eo in I.
@@ -305,11 +309,16 @@ Proof.
            destruct (V.bind_outs vs (V.i_outs i) ovals) as [vs1|] eqn:Eb; [|discriminate].
            apply Ok_inj in HS. apply pair_equal_spec in HS as [<- _].
            rewrite (bind_outs_other _ _ _ _ x Eb NI) in Fx. apply R; assumption.
-  - exists c. split; [split; [|split]|split; assumption].
+  - exists c. split; [split; [|split; [|split]]|split; assumption].
     + reflexivity.
     + intros y _. apply C.
     + intros g o G _. exfalso. unfold proj_inst in G.
       rewrite sem_fun_none_name in G; [discriminate | |]; destruct Ho as [-> | ->]; reflexivity.
+    + intros AS a Ha. unfold proj_inst in AS, Ha. cbn [i_op i_args] in AS, Ha.
+      destruct Ho as [Ho | Ho]; rewrite Ho in AS, Ha; [|discriminate AS].
+      unfold proj_args in Ha. cbn [no_reverse] in Ha. rewrite Ea in Ha. cbn [map rev app] in Ha. injection Ha as <-.
+      unfold inst_lit_ok in L. rewrite Ea in L. cbn [forallb] in L. apply andb_prop in L as [L _].
+      rewrite (oval_agree vs c a0 v0 R L Ev Pv0). exact Nz.
 Qed.
 
 (* ------------------------------------------------------------------ terminators *)
@@ -327,9 +336,10 @@ Lemma sim_jump i vs st l vs' st' c : rel vs c -> cenv_ok c -> inst_lit_ok i = tr
 Proof.
   intros R C L H. destruct (exec_inst_jump E X _ _ _ _ _ _ H) as [-> ->].
   assert (SC : forall name args outs, String.eqb name "assign" = false -> word_op name = None ->
-               step_conc lv (mkI name args outs) c c).
-  { intros name args outs A B. split; [reflexivity | split; [intros y _; apply C|]].
-    intros g o G _. rewrite sem_fun_none_name in G by assumption. discriminate. }
+               String.eqb name "assert" = false -> step_conc lv (mkI name args outs) c c).
+  { intros name args outs A B NA. split; [reflexivity | split; [intros y _; apply C | split]].
+    - intros g o G _. rewrite sem_fun_none_name in G by assumption. discriminate.
+    - intros AS. cbn [i_op] in AS. congruence. }
   unfold V.exec_inst in H. unfold is_ctl, proj_inst, inst_lit_ok in *.
   destruct (V.i_op i) eqn:Eo;
     try (destruct (V.exec_simple E X i vs st) as [[v1 s1]|]; discriminate H).
